@@ -545,8 +545,10 @@ class LinearModel(Model):
     def __init__(self,forward,adjoint=None,range_geometry=None,domain_geometry=None):
         #Assume forward is matrix if not callable (TODO: add more checks)
         if not callable(forward):      
-            forward_func = lambda x: self._matrix@x
-            adjoint_func = lambda y: self._matrix.T@y
+            # Bound methods (not closures over self): a deep copy of the model
+            # then applies its own copy of the matrix
+            forward_func = self._matrix_forward
+            adjoint_func = self._matrix_adjoint
             matrix = forward
         else:
             forward_func = forward
@@ -575,11 +577,23 @@ class LinearModel(Model):
         self._matrix_is_given = matrix is not None
 
         #Add gradient
-        self._gradient_func = lambda direction, wrt: self._adjoint_func(direction)
+        self._gradient_func = self._adjoint_gradient
 
         # if matrix is not None: 
         #     assert(self.range_dim  == matrix.shape[0]), "The parameter 'forward' dimensions are inconsistent with the parameter 'range_geometry'"
         #     assert(self.domain_dim == matrix.shape[1]), "The parameter 'forward' dimensions are inconsistent with parameter 'domain_geometry'"
+
+    def _matrix_forward(self, x):
+        """ Forward operator of a model given by a matrix. """
+        return self._matrix@x
+
+    def _matrix_adjoint(self, y):
+        """ Adjoint operator of a model given by a matrix. """
+        return self._matrix.T@y
+
+    def _adjoint_gradient(self, direction, wrt):
+        """ Gradient of a linear model: the adjoint applied to the direction. """
+        return self._adjoint_func(direction)
 
     @property
     def domain_geometry(self):
